@@ -103,6 +103,14 @@ pub fn script(rng: &mut Rng) -> Vec<Step> {
             st.wait = true;
         }
     }
+    // header blocks: the optional Content-Type header before or after Content-Length
+    if rng.chance(400) {
+        for st in s.steps.iter_mut() {
+            if rng.chance(500) {
+                st.hdr = 1 + rng.below(2) as u8;
+            }
+        }
+    }
     s.steps
 }
 
@@ -125,7 +133,7 @@ fn with_delivery(rng: &mut Rng, seed: u64, script: Vec<Step>, label: &str) -> Sc
     let mut ends = vec![];
     let mut off = 0;
     for st in &sc.script {
-        off += crate::h::client::frame_of(&st.op).len();
+        off += crate::h::client::frame_of(st).len();
         ends.push(off);
     }
     sc.knobs = pick_knobs(rng, false);
@@ -158,6 +166,7 @@ fn corpus_script(seed: u64, k: u64) -> Vec<Step> {
         let u = fresh_uri(0);
         s.open(&u, "proc main() {\n  // grüße 𝄞\n  printc('ä');\n}\n");
         s.request("textDocument/hover", &u, 0, 6);
+        s.steps.last_mut().unwrap().hdr = 1;
         s.change(
             &u,
             vec![Edit {
@@ -165,6 +174,7 @@ fn corpus_script(seed: u64, k: u64) -> Vec<Step> {
                 text: "Grüße → 漢".into(),
             }],
         );
+        s.steps.last_mut().unwrap().hdr = 2;
         s.probe(&u);
         s.steps.last_mut().unwrap().wait = true;
         s.unknown_request("x/y");
@@ -215,7 +225,7 @@ fn header_body_points(sc: &Scenario) -> Vec<(usize, usize)> {
     let mut out = vec![];
     let mut off = 0;
     for st in &sc.script {
-        let f = crate::h::client::frame_of(&st.op);
+        let f = crate::h::client::frame_of(st);
         let hdr = f.windows(4).position(|w| w == b"\r\n\r\n").unwrap() + 4;
         out.push((off, off + hdr));
         off += f.len();
@@ -437,7 +447,7 @@ pub fn judge(sc: &Scenario) -> Judgement {
     j.probe("stdout pipe full", c.stdout_full);
     j.probe("reader found stdin empty", c.stdin_empty);
     j.probe("closed-loop barrier in script", sc.script.iter().filter(|s| s.wait).count() as u64);
-    let sizes: Vec<usize> = sc.script.iter().map(|s| crate::h::client::frame_of(&s.op).len()).collect();
+    let sizes: Vec<usize> = sc.script.iter().map(|s| crate::h::client::frame_of(s).len()).collect();
     j.probe("frame with 5-digit Content-Length", sizes.iter().any(|n| *n > 10_030) as u64);
     j.probe("frame shorter than 60 bytes followed by a barrier", sizes.iter().zip(sc.script.iter().skip(1)).any(|(n, nx)| *n < 60 && nx.wait) as u64);
     let non_ascii = session_bytes(sc).1.iter().any(|b| *b >= 0x80);
